@@ -12,6 +12,7 @@ from engine.twins import TwinSpec, project, first_difference, count_events
 from engine.util import own_nodes, calls_with_nodes, where, optional_numeric_params, truthiness_uses
 
 RULES = {
+    "R-18.6": "an expired deadline surfaces as dns.exception.Timeout on every backend: in the asyncio backend asyncio.wait_for is called only inside _maybe_wait_for (which translates asyncio.TimeoutError), and that translation is in place - a bare TimeoutError is an OSError, which callers read as 'the server is broken'",
     "R-18.5": "a deadline is an absolute expiration; the relative timeout handed to a blocking call inside a loop (`_timeout(expiration)` / `_remaining(expiration)`) is computed on every trip, never once before the loop - otherwise n fragments may each take the whole budget and the exchange outlives its deadline without a Timeout",
     "R-18.1": "an exchange function returns a message only on paths that are infeasible when q.is_response(r) is false (checked here or, for ignore_errors, in receive_udp with the query), or returns the result of another checked exchange; receive_udp tests the source address before parsing",
     "R-18.2": "each dns.query function and its dns.asyncquery twin project onto the same sequence of decisions (recv, destination test, from_wire with its keyword set, Truncated/generic arms, is_response, raise/continue/return)",
@@ -308,12 +309,30 @@ def run(model, rep, tier):
                                   f"`{src(c)[:60]}` runs on every trip of the loop with `{a.id}`, computed once before it (`{src(rel_locals[a.id][0])}`): every trip may take the whole remaining budget, "
                                   "so a reply arriving in n slow fragments is accepted up to n times the deadline later and no Timeout is raised", stmt=f"timeout-per-trip {src(c.func)}")
     rep.floor("R-18.5", n_to, 3)
+    # ---------------------------------------------------------------- R-18.6
+    n_wf = 0
+    for f6 in sorted(model.all_functions(), key=lambda g: g.qualname):
+        if f6.module.name != "dns._asyncio_backend":
+            continue
+        for c in ast.walk(f6.node):
+            if isinstance(c, ast.Call) and src(c.func) in ("asyncio.wait_for", "asyncio.timeout", "asyncio.timeout_at"):
+                n_wf += 1
+                rep.check(f6.name == "_maybe_wait_for", "R-18.6", f6.qualname, where(f6, c), "asyncio.wait_for only inside the translating helper",
+                          f"`{src(c)[:60]}` is called directly in {f6.name}: when it expires the caller gets the builtin TimeoutError (an OSError) instead of dns.exception.Timeout, so e.g. the resolver "
+                          "drops the server as broken where the sync resolver retries it", stmt="wait-for-wrapped")
+    mw = model.func("dns._asyncio_backend._maybe_wait_for")
+    hs = [h for t_ in ast.walk(mw.node) if isinstance(t_, ast.Try) for h in t_.handlers]
+    okk = any(h.type is not None and "TimeoutError" in src(h.type) and any(isinstance(x, ast.Raise) and "dns.exception.Timeout" in src(x) for x in ast.walk(h)) for h in hs)
+    rep.check(okk, "R-18.6", mw.qualname, where(mw, mw.node), "asyncio.TimeoutError is translated to dns.exception.Timeout", "_maybe_wait_for no longer translates asyncio.TimeoutError into dns.exception.Timeout", stmt="timeout-translation")
+    rep.floor("R-18.6", n_wf, 1)
     rep.meta["explanation"] = (
         "Path-feasibility argument for 'nothing returned unchecked' (each returning path becomes infeasible when is_response is assumed false, under each value of ignore_errors), "
         "event projection and comparison of 11 sync/async twin pairs, and loop-shape rules for stream framing. Behaviour under every datagram sequence and stream split is NOT enumerated.")
 
 
 WITNESSES = [
+    {"id": "c18-stream-recv-bare-wait-for", "rule": "R-18.6", "file": "dns/_asyncio_backend.py", "expect": "fires",
+     "old": "        return await _maybe_wait_for(self.reader.read(size), timeout)", "new": "        return await asyncio.wait_for(self.reader.read(size), timeout)"},
     {"id": "c18-read-exactly-timeout-hoisted", "rule": "R-18.5", "file": "dns/asyncquery.py", "expect": "fires",
      "old": "    s = b\"\"\n    while count > 0:\n        n = await sock.recv(count, _timeout(expiration))", "new": "    s = b\"\"\n    timeout = _timeout(expiration)\n    while count > 0:\n        n = await sock.recv(count, timeout)"},
     {"id": "c18-twin-read-exactly-timeout-local-in-loop", "rule": "R-18.5", "file": "dns/asyncquery.py", "expect": "silent",
